@@ -1,5 +1,5 @@
 from . import engprop, apiprops
-CFG = apiprops.cfg("C10", ["C10_matches_exist", "C10_split_pieces", "C10_count", "C10_rebuild", "C10_split_safe", "C10_splitn", "C10_vm_split_pieces", "C10_vm_rebuild", "C10_vm_splitn"],
+CFG = apiprops.cfg("C10", ["C10_matches_exist", "C10_split_pieces", "C10_count", "C10_rebuild", "C10_split_safe", "C10_splitn", "C10_vm_split_pieces", "C10_vm_rebuild", "C10_vm_splitn", "C10_vm_split_total"],
                    [apiprops.api_extra("C10")])
 
 
